@@ -423,6 +423,17 @@ def run(ctx):
     if badi:
         rep.violation("extracted model and vm_compute disagree", {"cases": badi}, no_input=True)
 
+    # the format group is strict (unlike the two MiniPy groups, its proofs survive harmless rewrites of the source): when
+    # the source text still has the shape the translator reads but its numbers / width / byte orders no longer satisfy
+    # the SRC_fmt_* theorems and none of the correspondences above found an input on which the property fails, the
+    # property is no longer shown to hold for the source as it stands
+    if sd["translated"] and not sd["ok"] and not rep.violations:
+        rep.violation("the theorems about the format constants and word helpers read from the current source "
+                      "(coq/src/SrcFmtProps.v) no longer check",
+                      {"broken": "source-derived group Fmt", "theorems": [t["name"] for t in sd["theorems"]],
+                       "constants_read_from_the_source": sd.get("constants"),
+                       "coqc_output_tail": sd["output"][-2000:]}, no_input=True)
+
 
 def big_matrix(ctx):
     rep, rng, sc = ctx.rep, ctx.rng, ctx.scratch
